@@ -206,6 +206,8 @@ TrHandler ==
                    (\E a \in Range(OwnerMethod.args) : a.n = E.args[i].n /\ a.t \in {"DfltU32", "DfltU32W"})
                        => E.args[i].json = [t |-> "n", v |-> "0"])
     /\ Chk("C02", "context_is_the_callers", l, CtxOk(E))
+    \* (the entry points work on `Contract::new()`, tag 0; the harness calls the multitest impl on a contract value with tag 9)
+    /\ Chk("C02", "the_handler_runs_on_the_contract_value_the_call_was_made_on", l, E.tag = (IF fx.via = "mt" THEN 9 ELSE 0))
     /\ Chk("C06", "entry_point_dispatches_with_the_given_deps_env_and_info", l,
            fx.via = "ep" => (CtxOk(E) /\ ran'[Len(ran')] = [part |-> E.part, name |-> E.name, kind |-> E.kind]))
     /\ UNCHANGED <<pv, fx>>
